@@ -85,7 +85,9 @@ def vfiles():
 
 # translation obligations: definitions regenerated from /repo's source on every run (harness/translate.py) and proved equal to
 # the model by conversion; a property lists the generated files its theorems lean on
-TRANSLATED = {"C05": ["NAdvanceGen"], "C13": ["NAdvanceGen"], "C17": ["NAdvanceGen"], "C10": ["FinalizeGen"], "C18": ["ActValGen"], "C11": ["ObserversGen"], "C01": ["BasicGen"], "C02": ["BasicGen"], "C03": ["BasicGen"], "C04": ["BasicGen"], "C08": ["BasicGen"], "C09": ["BasicGen"], "C12": ["BasicGen"]}
+TRANSLATED = {"C05": ["NAdvanceGen"], "C13": ["NAdvanceGen", "TwoLevelGen"], "C17": ["NAdvanceGen"], "C10": ["FinalizeGen"], "C18": ["ActValGen"], "C11": ["ObserversGen"],
+              "C01": ["BasicGen", "TwoLevelGen"], "C02": ["BasicGen", "TwoLevelGen"], "C03": ["BasicGen", "TwoLevelGen"], "C04": ["BasicGen", "TwoLevelGen"],
+              "C08": ["BasicGen", "TwoLevelGen"], "C09": ["BasicGen", "TwoLevelGen"], "C12": ["BasicGen", "TwoLevelGen"]}
 
 
 def translation_layer(pid, res):
